@@ -59,6 +59,60 @@ theorem match_eq_spec (a : RuleArgs) (m : Msg) (hwf : a.WF) :
   rw [gen_eq_cur]
   exact ⟨explicitRule a, mkRule_cur a, explicit_match_iff a m hwf⟩
 
+/-- `match_eq_spec_with`.  The same over ALL keys, `arg0namespace` included, for either router: with
+`evalArg0 = true` (`Rule.matchWith true`: `Rule.match` followed by the `arg0namespace` clause of fixes/C14-05) the
+callback is invoked iff the message satisfies `specMatchesFull` - every constraint above AND "the first argument is
+a string that is the namespace or lies below it"; with `false` this is `match_eq_spec`.  No hypothesis about
+`arg0namespace` being absent: only that its value, like every other, is not the empty string. -/
+theorem match_eq_spec_with (evalArg0 : Bool) (a : RuleArgs) (m : Msg) (hwf : a.WFAll) :
+    ∃ r, mkRule Tables.gen a = .ok r ∧ (r.matchWith evalArg0 m = .call ↔ specMatchesWith evalArg0 a m = true) := by
+  rw [gen_eq_cur]
+  exact ⟨explicitRule a, mkRule_cur a, explicit_matchWith_iff evalArg0 a m hwf⟩
+
+/-- `match_eq_spec_full`: the evaluated form - the router after fixes/C14-05 against the specification over all keys. -/
+theorem match_eq_spec_full (a : RuleArgs) (m : Msg) (hwf : a.WFAll) :
+    ∃ r, mkRule Tables.gen a = .ok r ∧ (r.matchWith true m = .call ↔ specMatchesFull a m = true) :=
+  match_eq_spec_with true a m hwf
+
+/-- `match_eq_spec_gen`: the router of the tree under test (`Rule.matchGen`, the switch `Gen.Route.evaluatesArg0ns`
+is probed from the source on every run) against the relation it is measured against in the history theorems
+below; `gen_relation_is_full_spec` says when that relation is the specification over all keys. -/
+theorem match_eq_spec_gen (a : RuleArgs) (m : Msg) (hwf : a.WFAll) :
+    ∃ r, mkRule Tables.gen a = .ok r ∧ (r.matchGen m = .call ↔ specMatchesGen a m = true) :=
+  match_eq_spec_with _ a m hwf
+
+theorem gen_relation_is_full_spec (h : Gen.Route.evaluatesArg0ns = true) (a : RuleArgs) (m : Msg) :
+    specMatchesGen a m = specMatchesFull a m := by
+  unfold specMatchesGen specMatchesWith; rw [h]; rfl
+
+/-- ... and in any case the two relations differ only on rules that carry `arg0namespace`. -/
+theorem gen_relation_without_arg0namespace (a : RuleArgs) (m : Msg) (h : a.arg0ns = none) :
+    specMatchesGen a m = specMatchesFull a m := by
+  unfold specMatchesGen specMatchesWith specMatchesFull
+  split <;> simp [h, optAll]
+
+/-- The finding `arg0namespace-constraint-ignored`: txdbus as found (`Rule.match` = `matchWith false`) hands a
+signal whose first argument is `com.exa` to the callback of a rule `arg0namespace='com.ex'`, which the signal does
+not satisfy; the repaired router does not. -/
+theorem found_router_ignores_arg0namespace :
+    let a : RuleArgs := { arg0ns := some "com.ex".toList }
+    let m : Msg := { mtype := 4, path := .some "/a".toList, iface := .some "a.b".toList, member := .some "M".toList,
+                     dest := .none, sender := .none, body := some [.str "com.exa".toList] }
+    specMatchesFull a m = false ∧ (explicitRule a).matchWith false m = .call
+      ∧ (explicitRule a).matchWith true m = .skip := by decide
+
+/-- The hypothesis is satisfiable by a rule that uses every constraint key. -/
+example : RuleArgs.WFAll
+    { mtype := some "signal".toList, iface := some "a.b".toList, member := some "M".toList,
+      path := some "/a/b".toList, pathNs := some "/a".toList, dest := some ":1.1".toList,
+      args := some [(0, "x".toList), (1, [])], argPaths := some [(2, "/aa/".toList)], arg0ns := some "x".toList } :=
+  ⟨⟨by decide, by decide, by decide, by decide, by decide, by decide⟩, by decide⟩
+
+/-- ... and a rule with `arg0namespace` does match a signal whose first argument lies in the namespace. -/
+example : specMatchesFull { mtype := some "signal".toList, arg0ns := some "com.ex".toList }
+    { mtype := 4, path := .some "/a/b".toList, iface := .some "a.b".toList, member := .some "M".toList,
+      dest := .none, sender := .none, body := some [.str "com.ex.a".toList] } = true := by decide
+
 /-- The hypothesis is satisfiable by a rule that uses every constraint key. -/
 example : RuleArgs.WF
     { mtype := some "signal".toList, iface := some "a.b".toList, member := some "M".toList,
@@ -90,7 +144,9 @@ public client API cannot re-enter, see notes/C12.md). -/
 `MessageRouter`, with callbacks raising or not as `raises` says.  What the caller observes (ids
 returned, `KeyError`s, and for every routed message the list of (rule id, callback) pairs invoked) is
 exactly what the abstract registry prescribes: ids are handed out in order, a routed message invokes
-the currently registered rules that `specMatches`, each once, in registration order. -/
+the currently registered rules that `specMatchesGen` (the relation of `match_eq_spec_gen`: the specification over
+all keys once the tree evaluates `arg0namespace`), each once, in registration order.  Well-formed (`Op.WF`) now
+means: no constraint value, `arg0namespace` included, is the empty string. -/
 theorem route_exact (raises : Nat → Cb → Bool) (h : List Op) (hwf : ∀ op ∈ h, op.WF) :
     (Router.run Tables.gen raises {} h).2.map Obs.view = (SpecRouter.run {} h).2.map some := by
   rw [gen_eq_cur]
@@ -106,7 +162,7 @@ theorem route_independent_of_raising (raises₁ raises₂ : Nat → Cb → Bool)
 theorem invoked_exact_each_once (raises : Nat → Cb → Bool) (h : List Op) (hwf : ∀ op ∈ h, op.WF) (m : Msg) :
     let s := (Router.run Tables.gen raises {} h).1
     let g := (SpecRouter.run {} h).1
-    (s.route raises m).invoked = (g.live.filter (fun r => specMatches r.args m)).map (fun r => (r.id, r.cb))
+    (s.route raises m).invoked = (g.live.filter (fun r => specMatchesGen r.args m)).map (fun r => (r.id, r.cb))
     ∧ ((s.route raises m).invoked.map (·.1)).Nodup := by
   intro s g
   have hsim : Sim s g := by
@@ -114,12 +170,12 @@ theorem invoked_exact_each_once (raises : Nat → Cb → Bool) (h : List Op) (hw
     rw [gen_eq_cur]; exact (sim_run raises h {} {} sim_init hwf).1
   have hinv : SpecInv g := specInv_run h {} specInv_init
   have heq : (s.route raises m).invoked
-      = (g.live.filter (fun r => specMatches r.args m)).map (fun r => (r.id, r.cb)) := by
+      = (g.live.filter (fun r => specMatchesGen r.args m)).map (fun r => (r.id, r.cb)) := by
     unfold Router.route
     rw [hsim.rules, routeList_invoked raises m g.live hsim.wf]
   refine ⟨heq, ?_⟩
   rw [heq, List.map_map]
-  have hsub : ((g.live.filter (fun r => specMatches r.args m)).map ((fun x : Nat × Cb => x.1) ∘ fun r => (r.id, r.cb))).Sublist
+  have hsub : ((g.live.filter (fun r => specMatchesGen r.args m)).map ((fun x : Nat × Cb => x.1) ∘ fun r => (r.id, r.cb))).Sublist
       (g.live.map (·.id)) := by
     have : ((fun x : Nat × Cb => x.1) ∘ fun (r : Reg) => (r.id, r.cb)) = (·.id) := rfl
     rw [this]
@@ -392,7 +448,7 @@ constraints - which is both what `AddMatch` carried and what `delMatch` puts int
 theorem client_signal_exact (raises : Nat → Cb → Bool) (h : List COp) (hwf : ∀ op ∈ h, op.WF) (m : Msg) :
     let c := (Client.run Tables.gen raises {} h).1
     let g := (ClientSpec.run {} h).reg
-    (c.router.route raises m).invoked = (g.live.filter (fun r => specMatches r.args m)).map (fun r => (r.id, r.cb))
+    (c.router.route raises m).invoked = (g.live.filter (fun r => specMatchesGen r.args m)).map (fun r => (r.id, r.cb))
     ∧ c.matchRules = g.live.map (fun r => (r.id, renderRule r.args)) := by
   intro c g
   have hl : Link c (ClientSpec.run {} h) := by
@@ -430,28 +486,30 @@ theorem bus_rules_mirror_local_rules (accepts : Str → Bool) (raises : Nat → 
     exact dinv_run accepts raises h {} dinv_init hs
   exact dinv_mirror s hd hq
 
-/-- The daemon, reading the client's text with the specification's grammar, selects exactly the messages the
-rule's constraints select (rules without `sender` / `arg0namespace`, which only a daemon evaluates). -/
-theorem daemon_reads_rule_as_spec (a : RuleArgs) (m : Msg) (hs : a.sender = none) (hn : a.arg0ns = none) :
-    Spec.textMatches (renderRule a) m = specMatches a m :=
-  textMatches_render a m hs hn
+/-- The daemon, reading the client's text with the specification's grammar, selects exactly the messages that
+satisfy the rule over ALL keys (`specMatchesFull`: `arg0namespace` included) - for every rule without `sender`,
+the one constraint only a daemon can evaluate. -/
+theorem daemon_reads_rule_as_spec (a : RuleArgs) (m : Msg) (hs : a.sender = none) :
+    Spec.textMatches (renderRule a) m = specMatchesFull a m :=
+  textMatches_render_full a m hs
 
 /-- `live_rules_keep_receiving`.  End to end, for every history of the connection and its daemon that ends with no
 reply outstanding: let `g` be the registry computed from the events the client saw alone (`Spec.ClientSpec`: a
 registration exists from the acknowledgement of its AddMatch to the acknowledgement of its RemoveMatch).  A
-broadcast signal that satisfies the rule of a registration of `g` IS forwarded by the daemon - however many
-registrations with the same text were added and removed before - and invokes exactly the registrations of `g`
-whose rule it satisfies, each once. -/
+broadcast signal that satisfies the rule of a registration of `g` over all keys (`specMatchesFull`) IS forwarded by the
+daemon - however many registrations with the same text were added and removed before - invokes that registration,
+and invokes exactly the registrations of `g` whose rule it satisfies (`specMatchesGen`), each once. -/
 theorem live_rules_keep_receiving (accepts : Str → Bool) (raises : Nat → Cb → Bool) (h : List SOp)
-    (hwf : ∀ cb a, SOp.addMatch cb a ∈ h → a.WF)
+    (hwf : ∀ cb a, SOp.addMatch cb a ∈ h → a.WFAll)
     (hs : System.SingleRemoval Tables.gen accepts raises {} h) (m : Msg) :
     let s := (System.run Tables.gen accepts raises {} h).1
     let g := (ClientSpec.run {} (System.clientOps Tables.gen accepts raises {} h)).reg
     s.client.quiescent = true →
-    ∀ r ∈ g.live, r.args.sender = none → r.args.arg0ns = none → specMatches r.args m = true →
+    ∀ r ∈ g.live, r.args.sender = none → specMatchesFull r.args m = true →
       ∃ routed, (s.step Tables.gen accepts raises (.signal m)).2 = .client (.routed routed) ∧
-        routed.invoked = (g.live.filter (fun r => specMatches r.args m)).map (fun r => (r.id, r.cb)) := by
-  intro s g hq r hr hsn hns hm
+        routed.invoked = (g.live.filter (fun r => specMatchesGen r.args m)).map (fun r => (r.id, r.cb))
+        ∧ (r.id, r.cb) ∈ routed.invoked := by
+  intro s g hq r hr hsn hm
   have hmirror := bus_rules_mirror_local_rules accepts raises h hs hq
   have hcl : s.client = (Client.run Tables.gen raises {} (System.clientOps Tables.gen accepts raises {} h)).1 :=
     run_client Tables.gen accepts raises h {}
@@ -468,9 +526,11 @@ theorem live_rules_keep_receiving (accepts : Str → Bool) (raises : Nat → Cb 
       rw [htexts]
       simp only [List.map_map, List.mem_map]
       exact ⟨r, hr, rfl⟩
-    · rw [textMatches_render r.args m hsn hns]; exact hm
-  refine ⟨s.client.router.route raises m, ?_, hinv⟩
-  simp only [System.step, hfw, if_true, Client.step]
+    · rw [textMatches_render_full r.args m hsn]; exact hm
+  refine ⟨s.client.router.route raises m, ?_, hinv, ?_⟩
+  · simp only [System.step, hfw, if_true, Client.step]
+  · rw [hinv, List.mem_map]
+    exact ⟨r, List.mem_filter.mpr ⟨hr, specMatchesGen_of_full r.args m hm⟩, rfl⟩
 
 /-- The hypotheses are satisfiable by the history the property is about: two registrations with identical
 constraints (the second added after the first was acknowledged), removal of the first, everything delivered. -/
@@ -543,6 +603,12 @@ end Txdbus.Route
 #print axioms Txdbus.Route.gen_eq_cur
 #print axioms Txdbus.Route.mtypes_table_is_spec
 #print axioms Txdbus.Route.match_eq_spec
+#print axioms Txdbus.Route.match_eq_spec_with
+#print axioms Txdbus.Route.match_eq_spec_full
+#print axioms Txdbus.Route.match_eq_spec_gen
+#print axioms Txdbus.Route.gen_relation_is_full_spec
+#print axioms Txdbus.Route.gen_relation_without_arg0namespace
+#print axioms Txdbus.Route.found_router_ignores_arg0namespace
 #print axioms Txdbus.Route.namespace_is_component_prefix
 #print axioms Txdbus.Route.route_exact
 #print axioms Txdbus.Route.route_independent_of_raising
